@@ -348,6 +348,16 @@ func (m *Phase) Event(c *vnet.Cluster, e *vnet.Event) {
 				m.fail(c, "commit-without-precommit-quorum", "n%d sent its commit at (%d,%d) holding %d current-view pre-commits (M=%d)", n.ID, d.BlockIndex, d.ViewNumber, cnt, mOf(len(d.Validators)))
 			}
 		}
+	case vnet.KAPIRet:
+		if !amev && c.Cfg.AMEV >= 0 {
+			m.inc("api-returns-below-enabling-height")
+			for i, cp := range d.PreCommitPayloads {
+				if q := payloadOf(cp); q != nil {
+					m.fail(c, "precommit-acted-upon-below-enabling-height", "n%d stores pre-commit [%s] in slot %d at height %d, the extension is enabled from height %d", n.ID, q.Short(), i, d.BlockIndex, c.Cfg.AMEV)
+					break
+				}
+			}
+		}
 	case vnet.KProcessPreBlock:
 		if !amev {
 			m.fail(c, "preblock-below-enabling-height", "n%d pre-block callback at height %d (enabling height %d)", n.ID, d.BlockIndex, c.Cfg.AMEV)
@@ -418,7 +428,12 @@ func (m *Wake) Event(c *vnet.Cluster, e *vnet.Event) {
 		if e.Depth != 0 || d.Validators == nil {
 			return
 		}
-		if d.MyIndex < 0 || n.Watch || d.BlockSent() {
+		// "accepted a block for its current height" is judged by the application's ledger, not by the library's flag
+		accepted := n.Height() >= d.BlockIndex
+		if d.BlockSent() && !accepted {
+			m.inc("decided-flag-without-accepted-block")
+		}
+		if d.MyIndex < 0 || n.Watch || accepted {
 			m.inc("api-returns-not-applicable")
 			return
 		}
